@@ -440,6 +440,11 @@ pub fn run_check(prop: &str, tier: &str) -> i32 {
         // a code change that makes most runs hang must not make the check itself run for hours:
         // after this many runs over budget nothing more is dispatched
         pool.max_timeouts = 64;
+        // SIM-C runs are whole process histories (many requests on the same threads): each gets a
+        // process of its own, so that what it starts from (heap layout included) is what `replay`
+        // gives it. Too expensive (~50 ms per run) for the short SIM-A / SIM-B runs, which get their
+        // history from an explicit prelude instead.
+        pool.fresh_process_per_job = batch.sim == "c" && std::env::var("RSSV_FRESH_PROCESS").map(|v| v != "0").unwrap_or(true);
         let job_base = bi * 100_000_000;
         let nd = {
             let agg_ref = &mut agg;
